@@ -381,4 +381,8 @@ theorem IsBBox.shift {b : Extent} {es : List Extent} (h : IsBBox b es) (d0 d1 : 
     simp only [Extent.shift]; omega
   all_goals (simp only [Extent.shift]; omega)
 
+/-- a sum over a list does not depend on the order of the list -/
+theorem sumList_perm [AddCommMonoid K] {α} {l l' : List α} (h : l.Perm l') (f : α → K) : sumList l f = sumList l' f := by
+  rw [sumList_eq_sum, sumList_eq_sum]; exact (h.map f).sum_eq
+
 end Lentil
